@@ -3,7 +3,7 @@
     by the backend, class of the reply, user row the session is bound to,
     bytes written by the SASL service), plus the decidable finding classes. *)
 From Coq Require Import String Ascii List Bool Arith NArith ZArith.
-From Raven Require Import Base.GoStr Base.GoStrB64 Spec.Json Model.Auth.
+From Raven Require Import Base.GoStr Base.GoStrB64 Base.GoStrJson Spec.Json Model.Auth.
 Import ListNotations.
 Local Open Scope char_scope.
 
@@ -55,15 +55,12 @@ Definition imap_spec_b (d u p : str) (acc : bool) (r : auth_out) : bool :=
 
 (** ---- finding classes (behaviour of raven that violates the property) ---- *)
 Inductive finding :=
-| F_json_meta              (* quote, backslash or control octet in address or password *)
-| F_multi_at               (* more than one '@' in the user name *)
-| F_login_tokens           (* LOGIN argument that is not one blank-free token *)
-| F_sasl_reply_injection.  (* TAB or LF in the SASL user name *)
+| F_login_tokens.          (* LOGIN argument that is not one blank-free token *)
 
-Definition classify_cred (d u p : str) : option finding :=
-  if negb (json_clean (address_of d u) && json_clean p) then Some F_json_meta
-  else if Nat.leb 2 (count_byte u AT) then Some F_multi_at
-  else None.
+(** stated domain limit: JSON carries Unicode text; encoding/json replaces
+    octets that are not valid UTF-8 by U+FFFD, so exactness of the request
+    body is claimed for valid UTF-8 (all of ASCII included) *)
+Definition in_domain (d u p : str) : bool := utf8_valid (address_of d u) && utf8_valid p.
 
 (** ---- IMAP LOGIN: what the client supplied ---- *)
 Inductive astring_form := Atom | Quoted.
@@ -108,17 +105,6 @@ Definition sasl_decoded (raw : str) : option (str * str * str) :=
         end
       else None
   | _ => None
-  end.
-
-Definition sasl_user_ok (u : str) : bool := negb (contains_byte u LF) && negb (contains_byte u TAB).
-
-Definition classify_sasl (domain raw : str) : option finding :=
-  match sasl_decoded raw with
-  | Some (_, u, p) =>
-      if negb (sasl_user_ok u) then Some F_sasl_reply_injection
-      else if negb (json_clean (address_of domain u) && json_clean p) then Some F_json_meta
-      else None
-  | None => None
   end.
 
 Definition single_line (w : str) : bool :=
